@@ -119,6 +119,33 @@ def check_tree(ctx):
             ctx.inconclusive.append("shape %d: did not see both a normal and an exceptional ending (%s)" % (sh, sorted(kinds)))
 
 
+def check_single_hook(ctx, which):
+    """only one of the two hooks is defined: every crossing must still produce exactly one notification of that kind"""
+    install_exc(ctx.eng)
+    b0 = ctx.sandbox_base(32, "b0")
+    shape = ctx.sym("shape", 32)
+    x = ctx.sym("x", 64)
+    ctx.assume(z3.ULE(shape, 3))
+    paths = ctx.run("k_tree", [b0, shape, x])
+    tag = 51 if which == "out" else 50
+    for q in paths:
+        if q.status != "ret":
+            ctx.fail(q, "ended %s (%s)" % (q.status, q.info))
+            continue
+        lg = q.user.get("log") or []
+        entered = len([e for e in lg if e[0] == 28])
+        bodies = len([e for e in lg if e[0] == 20])
+        notes = [(conc(e[1])) for e in lg if e[0] == tag]
+        other = [e for e in lg if e[0] == (50 if which == "out" else 51)]
+        ninv = len([k for k in notes if k == INVOKE])
+        ncb = len([k for k in notes if k == CALLBACK])
+        r, m = ctx.eng.check_sat(q.pc)
+        ctx.require(q, z3.BoolVal(ninv == entered and ncb == bodies and not other),
+                    "with only the '%s' hook defined: %d invocations entered and %d callbacks run, but %d invocation and %d callback '%s' notifications"
+                    % (which, entered, bodies, ninv, ncb, which))
+    ctx.expect(paths, ret=8)
+
+
 def check_noop_tree(ctx):
     install_exc(ctx.eng)
     x = ctx.sym("x", 32)
@@ -144,5 +171,9 @@ def check_noop_tree(ctx):
 def jobs(tier, seed):
     return [Job("C19_noop_tree", '#include "C19_noop.inc"\n', [dict(name="noop two-sandbox nested tree", fn=check_noop_tree, unwind=400)], native=False,
                 flags=["-D_GLIBCXX_EXTERN_TEMPLATE=0"]),
+            Job("C19_only_out", '#define C19_ONLY_OUT\n#include "C19_tree.inc"\n', [dict(name="only the OUT hook defined", fn=check_single_hook, kw=dict(which="out"), unwind=400)],
+                native=False, max_paths=100000, flags=["-D_GLIBCXX_EXTERN_TEMPLATE=0"]),
+            Job("C19_only_in", '#define C19_ONLY_IN\n#include "C19_tree.inc"\n', [dict(name="only the IN hook defined", fn=check_single_hook, kw=dict(which="in"), unwind=400)],
+                native=False, max_paths=100000, flags=["-D_GLIBCXX_EXTERN_TEMPLATE=0"]),
             Job("C19_tree", '#include "C19_tree.inc"\n', [dict(name="transition call trees", fn=check_tree, unwind=400)], max_paths=100000,
                 flags=["-D_GLIBCXX_EXTERN_TEMPLATE=0"])]
